@@ -172,6 +172,11 @@ SetSliceRowOutcomes(s, a, b, r) == Same(s, {<<"TypeError">>})
 SliceOutcomes(s, a, b)   == {Out(<<"grid">>, Slice(s.rows, a, b), s.ver)}
 FilterIdOutcomes(s)      == {Out(<<"grid">>, SelectSeq(s.rows, LAMBDA r : IdOf(r) # 0), s.ver)}   \* g.filter('id')
 FilterLimitOutcomes(s, n) == {Out(<<"grid">>, SubSeq(s.rows, 1, Min(n, Len(s.rows))), s.ver)}       \* g.filter('', limit=n), n > 0
+\* copy.copy(g) / copy.deepcopy(g) / pickle.loads(pickle.dumps(g)): the history continues on the copy, which has the same rows (row by row, the
+\* copies of the rows under deepcopy), the same version and is as pinned to it ("given") as the original was.
+\* A deep copy (and a pickle round trip) is a grid of its own: the original is parked like the parent of a derived grid.  A shallow copy
+\* shares its row list with the original, which the history drops.
+CopyOutcomes(s) == {Out(<<"copy">>, s.rows, s.ver)}
 
 Outcomes(s, o) ==
     CASE o.name = "append"   -> AppendOutcomes(s, o.r)
@@ -191,6 +196,7 @@ Outcomes(s, o) ==
       [] o.name = "slice"    -> SliceOutcomes(s, o.a, o.b)
       [] o.name = "filter_id" -> FilterIdOutcomes(s)
       [] o.name = "filter_limit" -> FilterLimitOutcomes(s, o.n)
+      [] o.name = "copy"     -> CopyOutcomes(s)
 
 AnyRow == DictRows \cup NonDict
 SliceArgs == IdxArgs \cup {NoArg}
@@ -209,6 +215,7 @@ Ops ==
     \cup [name : {"setslice_row"}, a : {NoArg, 0}, b : {NoArg, 1}, r : AnyRow]
     \cup [name : {"reverse", "clear", "filter_id"}]
     \cup [name : {"filter_limit"}, n : {1, 2}]
+    \cup [name : {"copy"}, how : {"shallow", "deep", "pickle"}]
     \cup [name : {"extend", "iadd"}, rs : {<<>>} \cup {<<r1>> : r1 \in AnyRow}
                                           \cup {<<r1, r2>> : r1 \in DictRows, r2 \in AnyRow}]
 
@@ -240,10 +247,12 @@ Step == \E o \in Ops : \E out \in Outcomes(Cur, o) :
             /\ Len(out.rows) <= MaxLen
             /\ rows' = out.rows
             /\ ver' = out.ver
-            /\ given' = (given \/ out.res = <<"grid">>)   \* derived grids are built with an explicit version
+            /\ given' = given      \* a derived grid is as pinned to its version as the grid it was taken from: one whose
+                                   \* version was only detected goes on detecting (repaired in round 7; before that a slice
+                                   \* of an undeclared grid refused 3.0-only values as if 2.0 had been declared)
             /\ op' = o
             /\ res' = out.res
-            /\ parked' = IF Park /\ out.res = <<"grid">> THEN ParkOf(Cur) ELSE parked
+            /\ parked' = IF Park /\ (out.res = <<"grid">> \/ (out.res = <<"copy">> /\ o.how # "shallow")) THEN ParkOf(Cur) ELSE parked
 
 Next == Step \/ Switch
 
@@ -264,7 +273,9 @@ RefusedKeepsRows ==
 GivenVersionFixed == [][(given /\ op'.name # "switch") => ver' = ver]_vars
 \* C14/C15: the two live grids are independent -- only deriving and switching touch the parked one, and the
 \* parked grid satisfies the same state invariants as the current one
-ParkedIndependent == [][(op'.name # "switch" /\ res' # <<"grid">>) => parked' = parked]_vars
+ParkedIndependent == [][(op'.name # "switch" /\ res' \notin {<<"grid">>, <<"copy">>}) => parked' = parked]_vars
+\* C14/C10: a copy has the rows and the version of the grid it was made from
+CopyFaithful == [][op'.name = "copy" => (rows' = rows /\ ver' = ver /\ given' = given)]_vars
 ParkedInv == parked.has => /\ Range(parked.rows) \subseteq DictRows
                            /\ \A r \in Range(parked.rows) : r \in Only3Rows => ~Pre3(parked.ver)
 \* C15: after every history, a lookup result permitted by the model is a row currently present
